@@ -156,7 +156,7 @@ UNITS += [subclass_arm_unit("C14"), discard_unit("C14")]
 VERIFIED_CALLEES = ("is_subclass_spec",)
 LEVEL = "other"
 TECHNIQUE = "contract-based deductive verification of the spec-normalisation helpers (VCs from the real AST, complete case analysis of spec shapes) + bounded run-time contract checking on generated class families with a constructor log"
-LEVEL_TEXT = 'Verified: is_subclass_spec; subclass_spec_as_namespace (every short form denotes the explicit form: string, init_args / dict_kwargs without class_path, bare arguments, dotted sub-options --m.K, --m.dict_kwargs.K, --m.child.K); ActionTypeHint.__call__ (--m.K and --m.init_args.K are the same nested setting); the subclass arm of adapt_typehints (a class_path is accepted only if it imports to a subclass / implementer / callable returning one; every failure is the unexpected-value error); adapt_class_type (init_args validated by the parser of that very class, dict_kwargs handling, nested arguments instantiated first, the class constructed exactly once with {**init_args, **dict_kwargs}); discard_init_args_on_class_path_change; resolve_class_path_by_name / normalize_import_path / get_import_path / import_object (the accepted class_path imports back to the very class that was named - also when a parent package exposes another object under that name); group_instantiate_class; instantiate_classes. Bounded only: the import machinery and typing introspection end to end (14 classes x 11 declared types x 10 notations, constructor log, late subclasses).'
+LEVEL_TEXT = 'Verified: is_subclass_spec; subclass_spec_as_namespace (every short form denotes the explicit form: string, init_args / dict_kwargs without class_path, bare arguments, dotted sub-options --m.K, --m.dict_kwargs.K, --m.child.K); ActionTypeHint.__call__ (--m.K and --m.init_args.K are the same nested setting); the subclass arm of adapt_typehints (a class_path is accepted only if it imports to a subclass / implementer / callable returning one; every failure is the unexpected-value error); adapt_class_type (init_args validated by the parser of that very class, dict_kwargs handling, nested arguments instantiated first, the class constructed exactly once with {**init_args, **dict_kwargs}); discard_init_args_on_class_path_change; resolve_class_path_by_name / normalize_import_path / get_import_path / import_object (the accepted class_path imports back to the very class that was named - also when a parent package exposes another object under that name); group_instantiate_class; instantiate_classes. Also: the static discard walk (siblings sharing a name prefix are visited), add_subclasses of get_all_subclass_paths (classes below a private / abstract class are still offered by name), adapt_classes_any, is_subclass_spec, parse_argv_item, normalize_default, ActionTypeHint.instantiate_classes, add_subclass_arguments. Bounded only: the import machinery and typing introspection end to end (14 classes x 11 declared types x 10 notations, constructor log, late subclasses).'
 LEVEL_NOTE = "under construction"
 EXPLANATION = "under construction"
 ASSUMPTIONS = []
